@@ -4,7 +4,7 @@ from plbase import *
 import plbase
 
 ID = "C06"
-PROPS = "C06"
+PROPS = ["C06", "C06Chain"]
 EXEC = ("pl", "cv")
 RULE = ("pipelines of 2..6 requests (GET/POST/HEAD, bodies read or not) answered by separate threads in permuted order with every "
         "way of finishing: respond, drop unanswered, panicking handler (unwinding drops the request), raw writer (flushed / "
